@@ -1560,7 +1560,8 @@ class WindowFrameAnalyticFunction(AnalyticFunction):
         def __str__(self) -> str:
             # pylint: disable=E1101
             return "{value} {modifier}".format(
-                value=self.value or "UNBOUNDED",
+                # 0 PRECEDING / 0 FOLLOWING is the current row, not an unbounded edge
+                value="UNBOUNDED" if self.value is None else self.value,
                 modifier=self.modifier,  # type:ignore[attr-defined]
             )
 
